@@ -353,7 +353,15 @@ fn dec_value(bytes: &[u8], idx: &mut usize) -> Result<Value> {
             21 => Ok(Value::Bool(true)),
             22 => Ok(Value::Null),
             25 => {
+                // The encoder writes every NaN as f9 7e 00; any other NaN bit
+                // pattern (payload, sign, signalling) is a second encoding of
+                // the same value and must be rejected, not normalised.
+                need(bytes, *idx, 2)?;
+                let half_bits = u16::from_be_bytes([bytes[*idx], bytes[*idx + 1]]);
                 let f = read_f(bytes, idx, 2)?;
+                if f.is_nan() && half_bits != f16::NAN.to_bits() {
+                    return Err(CanonError::NonCanonicalFloat);
+                }
                 if is_exact_int(f) {
                     return Err(CanonError::FloatShouldBeInt);
                 }
